@@ -689,7 +689,11 @@ theorem script_ledger_ok (st : St) (ops : List HOp) (hr : st.heap.Replays) :
       unfold St.step
       cases hp : st.pdu with
       | none => exact hr
-      | some p => exact rp_resize p n st.heap hr
+      | some p =>
+        simp only
+        split
+        · exact hr
+        · exact rp_resize p n st.heap hr
     | check n =>
       unfold St.step
       cases hp : st.pdu with
